@@ -168,6 +168,45 @@ def conn_deferred_family():
     return out
 
 
+def free_break_family(kind):
+    """A bufferevent with deferred callbacks is released from inside its own callback, which also calls
+    event_base_loopbreak (the finalizer stays pending); then event_base_free: every finalizer (the filter's free_context)
+    runs exactly once, no callback afterwards; ASan watches the releases."""
+    me, peer = (3, 2) if kind == "filt" else (1, 2)
+    lp = (lambda: [{"a": "loop", "e": 1, "t": 0}]) if kind != "sock" else \
+         (lambda: [{"a": "loop", "e": 2, "t": 0}, {"a": "loop", "e": 1, "t": 0}])
+    bf = [{"a": "basefree"}]
+    sc = lambda xk, dr=0: {"a": "script", "e": me, "dr": dr, "xa": "freebrk", "xk": xk}
+    out = [
+        [sc("r"), {"a": "enable", "e": me, "m": 2}, {"a": "write", "e": peer, "n": 1}] + lp() + bf,
+        [sc("r", 99), {"a": "enable", "e": me, "m": 2}, {"a": "write", "e": peer, "n": 2}] + lp() + lp() + bf,
+        [sc("w"), {"a": "enable", "e": peer, "m": 2}, {"a": "write", "e": me, "n": 1}] + lp()[::-1] + bf,
+        [sc("r"), {"a": "enable", "e": me, "m": 2}, {"a": "write", "e": peer, "n": 1}, {"a": "write", "e": me, "n": 1}] + lp() + bf,
+        [{"a": "write", "e": peer, "n": 1}] + lp() + bf,                       # nothing released before the base goes
+    ]
+    if kind != "sock":
+        out.append([sc("e"), {"a": "flush", "e": peer, "m": 4, "md": 2}] + lp() + bf)
+    return out
+
+
+def flush_survivor_family():
+    """Pair whose partner is already freed: bufferevent_flush(survivor, READ|WRITE, any mode) returns -1 and must not keep
+    a reference: free(survivor) + event_base_free finalize it, observable as the cleanup of a chunk that was added to its
+    output by reference running exactly once (rc in the last observation)."""
+    out = []
+    lp = {"a": "loop", "e": 1, "t": 0}
+    for sv in (1, 2):
+        pt = 3 - sv
+        wr = {"a": "writeref", "e": sv, "n": 1}
+        for md in (0, 1, 2):
+            fl = {"a": "flush", "e": sv, "m": 6, "md": md}
+            out.append([wr, {"a": "free", "e": pt}, lp, fl, {"a": "free", "e": sv}, lp, {"a": "basefree"}])
+            out.append([{"a": "free", "e": pt}, lp, wr, fl, fl, {"a": "free", "e": sv}, {"a": "basefree"}])
+        out.append([wr, {"a": "free", "e": pt}, lp, {"a": "free", "e": sv}, lp, {"a": "basefree"}])          # control
+        out.append([wr, {"a": "enable", "e": pt, "m": 2}, lp, {"a": "basefree"}])                       # chunk travels to the partner
+    return out
+
+
 def conn_refused_family():
     """Refused connect -> ERROR; then the application re-arms writing on the same bufferevent: no CONNECTED may follow,
     the failed write is one ERROR|WRITING."""
@@ -248,6 +287,9 @@ def project(h, pid):
             continue
         s2 = dict(s)
         s2["o"] = {"r": o["r"], "cb": cb, "ep": ep}
+        for k in ("fc", "rc"):
+            if k in o:
+                s2["o"][k] = o[k]
         out.append(s2)
     return out
 
